@@ -873,6 +873,17 @@ func (x *Exec) applyContract(st *State, c *Contract, callee *types.Func, recv *V
 	if calleeFd != nil {
 		specPos = calleeFd.Body.Lbrace + 1
 	}
+	// 0. caller whitelist
+	if c.Callers != nil && x.noSafety == 0 {
+		caller := x.frame().qual
+		ok := false
+		for _, w := range c.Callers {
+			if w == caller || "dataStoreCommand."+w == caller || "dataStore."+w == caller {
+				ok = true
+			}
+		}
+		x.oblige(st, "call-pre", fmt.Sprintf("call(%s).callers", q), x.b.Bool(ok), at.Pos(), c.CallersProps)
+	}
 	// 1. preconditions
 	for _, r := range c.Requires {
 		if clauseUsesFresh(c, r) {
